@@ -249,12 +249,12 @@ p = prop("C09", engine="mir2smt",
          technique="symbolic execution of the crate's MIR into SMT (z3): inductive invariant (Manku-Motwani) over a HashMap contract, one add from any state; query thresholds as exact dyadic floats",
          functions=["LossyCounter::{with_width,add,add::{closure#0},query,query::{closure#0},clear,clone,n,width}"],
          bounds="key universe 3; 64-bit counters; n < 2^61, any width >= 1 (symbolic) for add; query: width in {1,2,4,8,16,32,64} (epsilon = 1/width exact), threshold a/64, n < 2^20",
-         outside=["the table-size bound width*(H(ceil(n/width))+1): a counting argument over whole histories, not a step property — not decided",
+         outside=["the table-size bound width*(H(ceil(n/width))+1) itself is a counting argument over whole histories; what is decided is the step invariant (B) it is derived from: after every add each tracked x has f+delta > floor(n/width) (the pruning rule applied in full at every window end). The arithmetic from (B) to the harmonic bound is Manku & Motwani's and is not re-proved",
                   "with_epsilon for epsilon that is not 1/width", "alphabets larger than 3 keys (the invariant is per key; interaction is only through n)"],
          assumptions=MC_ASSUME + ["Div/Rem by the symbolic width are uninterpreted functions + division lemma and its successor form (the latter discharged over mathematical integers (unbounded) and on all 8-bit words with real bvudiv/bvurem)",
-                                  "ghost T[x] = true count of x; invariant (A): tracked x: f>=1, f<=T<=f+delta, delta<=ceil(n/w)-1; untracked x: T<=floor(n/w); sum T = n"])
+                                  "ghost T[x] = true count of x; invariant (A): tracked x: f>=1, f<=T<=f+delta, delta<=ceil(n/w)-1; untracked x: T<=floor(n/w); sum T = n", "invariant (B): tracked x has f+delta > floor(n/w)"])
 p["units"] += [
-    M("lossy_add_step", "quick", "one add(y) from any state satisfying the invariant: n+1, returns true iff y untracked, invariant re-established; no panic", "K=3, 64-bit", model="lossy", what_m="add", need_witness=["ret", "pruned_at_window_end"], timeout_s=2400),
+    M("lossy_add_step", "quick", "one add(y) from any state satisfying the invariants (A) and (B): n+1, returns true iff y untracked, (A) re-established, (B) re-established (table pruned in full: the size bound's premise); no panic", "K=3, 64-bit", model="lossy", what_m="add", need_witness=["ret", "pruned_at_window_end"], timeout_s=2400),
     M("lossy_new_clear_clone", "quick", "with_width(w) is the empty counter with epsilon=1/w (panics iff w=0); clear() resets to it; clone() equal", "K=3", model="lossy", what_m="new_clear_clone", need_witness=["ret", "clear_ret"]),
 ]
 for w in (1, 2, 4, 16, 64):
